@@ -22,11 +22,19 @@ pub struct Prog {
     /// round-structured alphabet (E1, run unpruned): one action = [toggle observer]; set every
     /// input; stabilise
     pub rounds: bool,
+    /// the input variable(s) get `Cutoff::Never`: an equal-value write still makes the operator
+    /// run, on an input equal to its stored old input
+    pub input_never: bool,
+    /// a permanent observer directly on the input variable(s): the variable nodes follow the
+    /// writes while the operator is unobserved (A -> B -> A, then re-attach: the operator runs
+    /// on an input equal to its stored one)
+    pub pinned_input: bool,
 }
 
 impl Prog {
     pub fn to_json(&self) -> Json {
-        json!({"op": self.op.name(), "mt": self.mt.name(), "shared": self.shared, "via": self.via, "k": self.k, "rounds": self.rounds})
+        json!({"op": self.op.name(), "mt": self.mt.name(), "shared": self.shared, "via": self.via, "k": self.k, "rounds": self.rounds,
+               "input_never": self.input_never, "pinned_input": self.pinned_input})
     }
     pub fn from_json(j: &Json) -> Option<Prog> {
         Some(Prog {
@@ -36,6 +44,9 @@ impl Prog {
             via: j["via"].as_bool()?,
             k: j["k"].as_u64()? as u8,
             rounds: j["rounds"].as_bool().unwrap_or(false),
+            // older replay files have no such fields
+            input_never: j["input_never"].as_bool().unwrap_or(false),
+            pinned_input: j["pinned_input"].as_bool().unwrap_or(false),
         })
     }
     /// operator name used in cause signatures. The generic operators share one implementation
@@ -92,6 +103,10 @@ pub struct MapsWorld {
     dropped_new: bool,
     /// what the observer showed after the last stabilise it took part in
     last_read: Option<Out>,
+    /// the operator's last run was on an input equal to its previously processed one (only
+    /// reachable with `input_never` / `pinned_input`). Part of the digest: such a run touches the
+    /// operator's hidden closure state without any visible effect.
+    equal_run: bool,
     // ---- harness
     dead: bool,
     obs_hash: u64,
@@ -231,6 +246,16 @@ impl MapsWorld {
         };
         let _ = rig.take_log();
         let before = rig.state.stats().recomputed;
+        // Did the operator node itself run in this stabilise? Needed (a) while it is unobserved
+        // (it must not; if it does the model follows it) and (b) when the input equals the
+        // previously processed one (a run then leaves no other trace). Read off the node's
+        // recomputation stamp in the engine dump before and after.
+        // Only programs with `input_never` / `pinned_input` pay for the two dumps: without those
+        // flags nothing at all is recomputed while the output is unobserved (so `recomputed > 0`
+        // tells), and an equal input never reaches the operator.
+        let flagged = self.prog.input_never || self.prog.pinned_input;
+        let need_stamp = flagged && *a == Act::Stabilise && (self.obs == Obs::None || self.processed.as_ref() == Some(&self.cur));
+        let stamp_before = if need_stamp { rig.op_rec() } else { None };
         let maps = self.maps.clone();
         let res = catch(|| {
             match a {
@@ -264,6 +289,7 @@ impl MapsWorld {
             }
         };
         let recomputed = rig.state.stats().recomputed - before;
+        let op_ran = need_stamp && rig.op_rec() != stamp_before;
         self.obs_hash = hash64(&(self.obs_hash, format!("{a:?}"), &read, &calls));
         let sig_op = self.prog.sig_op();
 
@@ -304,9 +330,10 @@ impl MapsWorld {
         self.dropped_new = false;
         let observed = self.obs != Obs::None;
         // While nobody observes the output the operator is not needed and does not run. Should
-        // the engine run it anyway (something was recomputed / a user function ran), follow it:
-        // its stored old input is then the current one.
-        let ran_unobserved = !observed && (recomputed > 0 || !calls.is_empty());
+        // the engine run it anyway (its recomputation stamp moved -- or, in programs where nothing
+        // else can be recomputed then, anything was recomputed -- or a user function ran), follow
+        // it: its stored old input is then the current one.
+        let ran_unobserved = !observed && (if need_stamp { op_ran } else { recomputed > 0 } || !calls.is_empty());
         if ran_unobserved {
             self.note("ran_while_unobserved");
         }
@@ -317,6 +344,7 @@ impl MapsWorld {
             let cur = self.cur_maps();
             let prev: Option<Vec<&Bt>> = prev_ix.as_ref().map(|p| p.iter().map(|i| &self.maps[*i as usize]).collect());
             let (cvs, slack) = judge_calls(&sig_op, &calls, prev.as_deref(), &cur, reobserved);
+            let equal_input = prev_ix.as_ref() == Some(&cur_ix);
             let phase = match (&prev, reobserved) {
                 (None, _) => "init",
                 (Some(_), true) => "after-gap",
@@ -372,10 +400,20 @@ impl MapsWorld {
                     _ => self.note("calls_other"),
                 }
             }
+            // `processed` = the input of the last round the operator ran in. A run on an equal
+            // input leaves it unchanged by value, but is remembered: the diff of that round is
+            // empty (no call allowed, judged above) and the next round must again touch only the
+            // keys that really differ.
+            if !equal_input {
+                self.equal_run = false;
+            } else if op_ran {
+                self.equal_run = true;
+                self.note("rounds_equal_input_run");
+            }
             self.processed = Some(cur_ix);
         }
         if check {
-            self.explain = format!("calls: {calls:?} read: {read:?} recomputed: {recomputed}");
+            self.explain = format!("calls: {calls:?} read: {read:?} recomputed: {recomputed} operator_ran: {}", if need_stamp { op_ran.to_string() } else { "?".into() });
         }
         vs
     }
@@ -386,7 +424,7 @@ impl MapsWorld {
         // the model's `processed` stands in for it (they agree unless C15/C17 already failed).
         // Old outputs are node values and are printed by the dump.
         let rig = self.rig.as_ref()?;
-        let mut s = format!("cur={:?} processed={:?} obs={:?}/{} last={:?} has_obs={}\n", self.cur, self.processed, self.obs, self.dropped_new, self.last_read, rig.has_observer());
+        let mut s = format!("cur={:?} processed={:?} obs={:?}/{} last={:?} has_obs={} equal_run={}\n", self.cur, self.processed, self.obs, self.dropped_new, self.last_read, rig.has_observer(), self.equal_run);
         s.push_str(&canonicalise_dump(&rig.state.verif_dump()));
         Some(s)
     }
@@ -400,7 +438,8 @@ impl World for MapsWorld {
         let maps = maps_for(prog.k);
         let p = prog.clone();
         // building the graph is part of every history; a panic here kills the world
-        let rig = catch(move || rig::build(p.op, p.mt, p.shared, p.via)).ok();
+        let opts = rig::Opts { shared: p.shared, via: p.via, input_never: p.input_never, pinned_input: p.pinned_input };
+        let rig = catch(move || rig::build(p.op, p.mt, opts)).ok();
         MapsWorld {
             prog: prog.clone(),
             cfg: cfg.clone(),
@@ -412,6 +451,7 @@ impl World for MapsWorld {
             obs: Obs::None,
             dropped_new: false,
             last_read: None,
+            equal_run: false,
             obs_hash: 0,
             counters: Counters::new(),
             explain: String::new(),
